@@ -133,7 +133,9 @@ def sample_discrete(values, weights, size=1, seed=None):
         samples = np.zeros(size, dtype=int)
         unique_weights, counts = np.unique(weights, axis=0, return_counts=True)
         for index, size in enumerate(counts):
-            samples[(weights == unique_weights[index]).all(axis=1)] = np.random.choice(
+            # Select the rows before `_adjusted_weights` modifies `unique_weights`.
+            row_mask = (weights == unique_weights[index]).all(axis=1)
+            samples[row_mask] = np.random.choice(
                 compat_fns.to_numpy(values),
                 size=size,
                 p=_adjusted_weights(unique_weights[index]),
